@@ -444,12 +444,16 @@ func runC01(ctx *core.Ctx) {
 		ctx.Wait()
 		c01Models(ctx) // stage-level correspondence (c01_models.go)
 		c01UnicityLoop(ctx) // the seq / keys loop of enforceUnicity (c01_unicity.go)
+		c01Pipe(ctx, sch, rich) // the composed stage models vs LoadModelWithContext (c01_pipe.go)
 	}
 	if only == "" || only == "schema" {
 		schemacorr.Run(ctx) // gojsonschema vs Schema.conforms (harness/schema.go): the tie behind Props/C01Schema.lean
 	}
 	if only == "repeat" {
 		c01Repeats(ctx)
+	}
+	if only == "pipe" {
+		c01Pipe(ctx, sch, rich)
 	}
 	if only == "seqified" {
 		c01Seqified(ctx, sch, rich)
